@@ -104,7 +104,11 @@ def exec_op(rt, wl, labs, op):
                              volume=dec(op["volume"]), **_kw(rt, op))
     if k in ("evo_aspirate", "evo_dispense"):
         lab = labs[op["lab"]]
-        args = dict(labware=lab, wells=op["wells"], labware_position=tuple(op["pos"]), tips=_tip(rt, op["tips"]),
+        w = op["wells"]
+        if op.get("wcol") and isinstance(w, list):
+            import numpy as np
+            w = np.array(w).reshape(-1, 1)  # e.g. plate.wells[0:3, [1]]
+        args = dict(labware=lab, wells=w, labware_position=tuple(op["pos"]), tips=_tip(rt, op["tips"]),
                     volumes=dec(op["volumes"]), liquid_class=op.get("lc", ""), arm=op.get("arm", 0),
                     label=op.get("label"))
         if k == "evo_dispense":
